@@ -130,6 +130,12 @@ def plan(rng, tier):
                           [1, 1, 2], [0, 1, 0], [1, 0, 1]])]
     else:
         op = ["setstate", rng.choice(["fresh", "live", "live"])]
+    if dom.fam == "fs" and kind == "Bucket" and rng.random() < 0.4:
+        # the packed form: fromBytes() into the container itself (usually
+        # more entries than it has room for) or into a new bucket
+        op = [rng.choice(["fsload", "fsload", "fsrt"]),
+              [[k, g.val()] for k in range(dom.nkeys)
+               if rng.random() < 0.8]]
     mode = "hook"
     r2 = rng.random()
     # operations whose only allocations are Python objects the extension
